@@ -159,11 +159,13 @@ class BaseAmplitudeModel(AbsPDF):
             combine = [[i] for i in range(len(self.decay_group.chains))]
         o_used_chains = self.decay_group.chains_idx
         weights = []
-        for i in combine:
-            self.decay_group.set_used_chains(i)
-            weight = self.pdf(data)
-            weights.append(weight)
-        self.decay_group.set_used_chains(o_used_chains)
+        try:
+            for i in combine:
+                self.decay_group.set_used_chains(i)
+                weight = self.pdf(data)
+                weights.append(weight)
+        finally:
+            self.decay_group.set_used_chains(o_used_chains)
         return weights
 
     def partial_weight_interference(self, data):
@@ -267,9 +269,11 @@ class CachedShapeAmplitudeModel(BaseAmplitudeModel):
             i for i in old_chains_idx if i not in cached_shape_idx
         ]
         self.decay_group.set_used_chains(used_chains_idx)
-        pv = build_params_vector(self.decay_group, data)
+        try:
+            pv = build_params_vector(self.decay_group, data)
+        finally:
+            self.decay_group.set_used_chains(old_chains_idx)
         partial_cached_data = [cached_data[i] for i in used_chains_idx]
-        self.decay_group.set_used_chains(old_chains_idx)
         ret = []
 
         for idx, (i, j) in enumerate(zip(pv, partial_cached_data)):
